@@ -85,6 +85,16 @@ SEEDS = {
  "s7-C16g": ("C16", ["C16"], "a consumes/produces list containing the same media type twice: in-place compaction writes into the document (and races on first concurrent calls)"),
  "s7-C17g": ("C17", ["C17"], "a value listed twice inside one mixin's consumes list and not yet known to the primary"),
  "s7-C20g": ("C20", ["C20", "C03"], "multi-typed schemas mentioning 'null' ([object, null] with properties, through $ref chains, as array items)"),
+ "s8-C01h": ("C01", ["C01", "C12"], "one schema holding two or more patternProperties with different complex inline content, full mode (shared loop variable: the new definition is cloned from a sibling)"),
+ "s8-C03h": ("C03", ["C03"], "a definition named like an ignored key ('schema', 'not', 'anyOf', 'oneOf') with a complex inline schema directly under its 'not' keyword: empty generated name, schema silently skipped"),
+ "s8-C04h": ("C04", ["C04", "C01"], "full mode, three naming steps in one pass: an inline complex schema named first, then one that contains an anonymous pointer $ref, then the pointer's target (stale cached ref index)"),
+ "s8-C06h": ("C06", ["C06", "C11"], "a schema with a $ref AND a sibling keyword that itself holds a $ref to a definition with no other referrer (siblings of $ref no longer indexed)"),
+ "s8-C07h": ("C07", ["C07", "C02"], "two nested collisions: a generated name colliding with an existing definition (aP) whose inline object refers to a colliding $ref-free import (x): outcome depends on which OAIGen entry stripOAIGen visits first"),
+ "s8-C08h": ("C08", ["C08", "C06"], "RemoveUnused + an anonymous pointer to the schema of a shared parameter sitting in an unused shared response: shared section kept by the first pass, dropped by the second"),
+ "s8-C09h": ("C09", ["C09"], "a pointer chain with a tail leading into a cycle it is not part of (p -> x -> y -> x): DeepestRef compares with the start only; order-dependent (about 2 runs in 5)"),
+ "s8-C12h": ("C12", ["C12", "C11"], "a schema with $ref plus sibling sub-schema keywords (properties, allOf, additionalProperties): nested schemas dropped from AllDefinitions / SchemasWithAllOf"),
+ "s8-C13h": ("C13", ["C13"], "an inline status-code response with two or more headers carrying patterns/enums: hoisted key prefix re-assigned inside the loop"),
+ "s8-C18h": ("C18", ["C18"], "primary path item with an id-less operation under an earlier method and an id under a later method, the same id in a mixin ('break' for 'continue' in getOpIDs)"),
 }
 only = set(sys.argv[1:])
 res_path = os.path.join(HERE, "seeded", "results.json")
